@@ -441,7 +441,9 @@ def run_r6(ctx, rule):
         if norm(util.cname(t)) == DR + "from_read":
             a0 = sy.operand(t["args"][0])
             if not mentions(a0, lambda x: x[0] == "call" and norm(x[2]).endswith("Read::chain")):
-                g = guards.holds(fn, bb, lambda fa: fa[0] == "bool" and fa[2] is True and fa[1][0] == "call" and norm(fa[1][2]).endswith("Vec::is_empty"))
+                # (the emptiness test may be made on the copy or on BufReader::buffer() itself)
+                g = guards.holds(fn, bb, lambda fa: fa[0] == "bool" and fa[2] is True and fa[1][0] == "call" and norm(fa[1][2]).endswith(("Vec::is_empty", "slice::is_empty", "<impl [T]>::is_empty"))
+                                 and mentions(fa[1], lambda x: x[0] == "call" and norm(x[2]).endswith("BufReader::buffer")))
                 rule.check(bool(g), "from_buf_reader/unchained-only-when-empty", "the inner reader is used on its own only when the BufReader's buffer was empty", fn.loc(bb))
     # both arms hand something to from_read
     fr = [bb for bb, t in fn.calls() if norm(util.cname(t)) == DR + "from_read"]
